@@ -5,19 +5,94 @@ package hostsfile
 // Contracts for the deductive verifier in /verif (govc); comments only.
 
 /*@
+// ---------------------------------------------------------------------------
+// Record grammar (property C07), over absolute positions in the line's byte
+// array: the text before the first '#' with spaces and tabs trimmed from both
+// ends is a sequence of fields separated by runs of spaces/tabs.
+
+// cutting one field off the front
 func cutStringField
   ensures safe_shrinks: len(field) + len(tail) <= len(data)
+  ensures no_space: idxAnyAbs(arrOf(data), off(data), off(data) + len(data), spaces) < 0 ==> sameView(field, data) && len(tail) == 0
+  ensures cut: (let e = idxAnyAbs(arrOf(data), off(data), off(data) + len(data), spaces) in
+    let nx = skipSetAbs(arrOf(data), e, off(data) + len(data), spaces) in
+    e >= 0 ==> sameBase(field, data) && off(field) == off(data) && len(field) == e - off(data) &&
+      len(tail) == off(data) + len(data) - nx && (len(tail) > 0 ==> sameBase(tail, data) && off(tail) == nx))
 
 func cutField
   ensures safe_shrinks: len(field) + len(tail) <= len(data)
+  ensures no_space: idxAnyAbs(arrOf(str(data)), off(data), off(data) + len(data), spaces) < 0 ==> field == data && len(tail) == 0
+  ensures cut: (let e = idxAnyAbs(arrOf(str(data)), off(data), off(data) + len(data), spaces) in
+    let nx = skipSetAbs(arrOf(str(data)), e, off(data) + len(data), spaces) in
+    e >= 0 ==> ref(field) == ref(data) && off(field) == off(data) && len(field) == e - off(data) &&
+      len(tail) == off(data) + len(data) - nx && (len(tail) > 0 ==> ref(tail) == ref(data) && off(tail) == nx))
+
+// the line s: end of the uncommented text, the trimmed window, field ends and
+// starts of the following field, the start of field k
+spec fn lineEnd(s string) int = indexByte(s, '#') < 0 ? off(s) + len(s) : off(s) + indexByte(s, '#')
+spec fn trimStart(s string) int = skipSetAbs(arrOf(s), off(s), lineEnd(s), spaces)
+spec fn trimEnd(s string) int = skipSetBackAbs(arrOf(s), trimStart(s), lineEnd(s), spaces)
+spec fn fEnd(s string, p int) int =
+  idxAnyAbs(arrOf(s), p, trimEnd(s), spaces) < 0 ? trimEnd(s) : idxAnyAbs(arrOf(s), p, trimEnd(s), spaces)
+spec fn fNext(s string, p int) int =
+  idxAnyAbs(arrOf(s), p, trimEnd(s), spaces) < 0 ? trimEnd(s) :
+    skipSetAbs(arrOf(s), idxAnyAbs(arrOf(s), p, trimEnd(s), spaces), trimEnd(s), spaces)
+spec fn fieldStart(s string, k int) int = k <= 0 ? trimStart(s) : fNext(s, fieldStart(s, k - 1))
+  hidden
+
+lemma fieldStartZero(s string)
+  reveal fieldStart
+  ensures fieldStart(s, 0) == trimStart(s)
+
+lemma fieldStartStep(s string, k int)
+  requires k >= 1
+  reveal fieldStart
+  ensures fieldStart(s, k) == fNext(s, fieldStart(s, k - 1))
+
+// the two sentinel errors
+spec fn isErr(e error, text string) bool = typeis(e, "github.com/AdguardTeam/golibs/errors.Error") && as(e, "github.com/AdguardTeam/golibs/errors.Error") == text
+  inline
+
+// field k of the line as a view of its bytes
+spec fn fieldOf(s string, k int) string = s[fieldStart(s, k) - off(s):fEnd(s, fieldStart(s, k)) - off(s)]
+  inline
 
 func (*Record).UnmarshalText
   requires rec != nil
   modifies rec.Addr, rec.Names
   logged
+  def s = str(data)
+  apply fieldStartZero(s)
+  apply fieldStartStep(s, 1)
+  ensures empty_line: trimStart(s) == trimEnd(s) ==> isErr(err, "line is empty")
+  ensures no_hosts: trimStart(s) < trimEnd(s) && fNext(s, trimStart(s)) == trimEnd(s) ==> isErr(err, "no hostnames")
+  ensures bad_address: trimStart(s) < trimEnd(s) && fNext(s, trimStart(s)) < trimEnd(s) && !parseAddrOK(fieldOf(s, 0)) ==> err != nil
+  ensures address: trimStart(s) < trimEnd(s) && fNext(s, trimStart(s)) < trimEnd(s) && parseAddrOK(fieldOf(s, 0)) ==>
+    rec.Addr == parseAddr(fieldOf(s, 0))
+  ensures names_are_the_fields: trimStart(s) < trimEnd(s) && fNext(s, trimStart(s)) < trimEnd(s) && parseAddrOK(fieldOf(s, 0)) ==>
+    (forall i in 0..len(rec.Names): fieldStart(s, i + 1) < trimEnd(s) && sameView(rec.Names[i], fieldOf(s, i + 1)) && domainNameOK(rec.Names[i]))
+  ensures accepted_iff_all_names_valid: trimStart(s) < trimEnd(s) && fNext(s, trimStart(s)) < trimEnd(s) && parseAddrOK(fieldOf(s, 0)) ==>
+    (err == nil ==> fieldStart(s, len(rec.Names) + 1) == trimEnd(s)) &&
+    (err != nil ==> fieldStart(s, len(rec.Names) + 1) < trimEnd(s) && !domainNameOK(fieldOf(s, len(rec.Names) + 1)))
   loop 0
     invariant safe_count: 0 <= n && n + len(f) + len(t) <= len(hosts)
+    invariant at_field: fieldStart(s, n + 1) <= trimEnd(s) &&
+      (len(f) > 0 ==> sameBase(f, s) && off(f) == fieldStart(s, n + 1) && off(f) + len(f) == fEnd(s, fieldStart(s, n + 1)) && fieldStart(s, n + 1) < trimEnd(s)) &&
+      (len(f) == 0 ==> fieldStart(s, n + 1) == trimEnd(s))
+    invariant rest: (len(t) > 0 ==> sameBase(t, s) && off(t) == fNext(s, fieldStart(s, n + 1)) && off(t) + len(t) == trimEnd(s)) &&
+      (len(t) == 0 ==> fNext(s, fieldStart(s, n + 1)) == trimEnd(s) || fieldStart(s, n + 1) == trimEnd(s))
+    invariant valid_so_far: forall i in 0..n: fieldStart(s, i + 1) < trimEnd(s) && domainNameOK(fieldOf(s, i + 1))
+    invariant no_error_yet: err == nil
+    invariant hosts_window: sameBase(hosts, s) && off(hosts) == fieldStart(s, 1) && off(hosts) + len(hosts) == trimEnd(s) && len(hosts) > 0
+    apply fieldStartStep(s, n + 1) when n >= 0
     decreases len(f) + len(t)
+  loop 1
+    invariant names_len: len(rec.Names) == n && rangeindex < n
+    invariant recut: (len(hosts) > 0 ==> sameBase(hosts, s) && off(hosts) == fieldStart(s, rangeindex + 2) && off(hosts) + len(hosts) == trimEnd(s)) &&
+      (len(hosts) == 0 ==> fieldStart(s, rangeindex + 2) == trimEnd(s))
+    invariant placed: forall i in 0..rangeindex + 1: sameView(rec.Names[i], fieldOf(s, i + 1))
+    invariant still_valid: forall i in 0..n: fieldStart(s, i + 1) < trimEnd(s) && domainNameOK(fieldOf(s, i + 1))
+    apply fieldStartStep(s, rangeindex + 2) when rangeindex + 2 >= 1
 
 // The byte counts of a record fit in memory: the sum of the name lengths
 // cannot wrap around (physical bound, stated as a precondition).
